@@ -240,7 +240,7 @@ Inductive rk :=
 | KCode        (* call / return_call / ref.func / global.get / i32.load ... in original, built or injected code *)
 | KExport | KStart
 | KElemFn      (* function-index item of an element segment *)
-| KElemExpr    (* `ref.func f` expression item of an element segment: never re-indexed (D05) *)
+| KElemExpr    (* `ref.func f` expression item of an element segment (re-indexed since the repair of D05) *)
 | KDataMem     (* memory index of an active data segment *)
 | KDataOff     (* `global.get g` offset of an active data segment *)
 | KInit.       (* `global.get g` / `ref.func f` in the initialiser of a local global *)
@@ -301,11 +301,11 @@ Definition site_active (lf lg : list item) (dead_exports : list N) (s : rsite) :
 
 (* Ok (Some q) = emitted with index q; Ok None = the reference is dropped (deleted start function);
    Panic = encode panics.  Exports of functions, globals and memories go through the id maps (global exports
-   since the repair of D03). *)
+   since the repair of D03), and so do the constant expressions that are kept as parsed - element segment items
+   and offsets, table initialisers - since the repair of D05 (ConstExprReindexer: "Deleted function!"). *)
 Definition site_emit (mf mg mm : list (N * N)) (s : rsite) : res (option N) :=
   let m := match rs_sp s with SF => mf | SG => mg | SM => mm end in
   match rs_k s, rs_sp s with
-  | KElemExpr, _ => Ok (Some (rs_id s))                     (* D05 *)
   | KStart, _ => Ok (lookup m (rs_id s))                    (* warn!("Deleted the start function!") *)
   | _, _ => match lookup m (rs_id s) with Some q => Ok (Some q) | None => Panic 50 end
   end.
